@@ -1,17 +1,23 @@
 (* stdin: "<id> <tail> <vmod> <setup> <program>"   setup: ops of a thread that runs alone first ("-" = none);
    program: threads '|', ops ',' :  A allocate | F<i> deallocate i-th kept id | E emplace | T<k> take_released k-th
-   issued id | R finish_released.  Prints every outcome the model admits over all schedules of the program threads. *)
+   issued id | R finish_released | K<h>.<k> holder[h] = box.take(k-th id) | M<h>.<g> holder[h] = std::move(holder[g]) |
+   C<h>.<g> construct holder[h] from std::move(holder[g]) | D<h> destroy holder[h].  Prints every outcome the model admits over all schedules of the program threads. *)
 let parse_op (o : string) : op =
-  let arg () = nat_of_int (int_of_string (String.sub o 1 (String.length o - 1))) in
+  let rest = String.sub o 1 (String.length o - 1) in
+  let arg () = nat_of_int (int_of_string rest) in
+  let two () = match String.split_on_char '.' rest with
+    | [a; b] -> (nat_of_int (int_of_string a), nat_of_int (int_of_string b)) | _ -> failwith ("bad op " ^ o) in
   match o.[0] with
   | 'A' -> OAlloc | 'F' -> OFree (arg ()) | 'E' -> OEmplace | 'T' -> OTake (arg ()) | 'R' -> OFinish
+  | 'K' -> let (h, k) = two () in OAcTake (h, k) | 'M' -> let (h, g) = two () in OAcMove (h, g)
+  | 'C' -> let (h, g) = two () in OAcCtor (h, g) | 'D' -> OAcDrop (arg ())
   | _ -> failwith ("bad op " ^ o)
 
 let show_res (r : res) : string =
   match r with
   | RId (v, k) -> Printf.sprintf "%d@%d" (int_of_z v) (int_of_z k)
   | REmp (v, k) -> Printf.sprintf "%d@%d" (int_of_z v) (int_of_z k)
-  | RFree -> "f" | RFin -> "r" | RSkip -> "-"
+  | RFree -> "f" | RFin -> "r" | RSkip -> "-" | RAcc -> "a"
   | RTake b -> if b then "1" else "0"
 
 let parse_thread (th : string) : op list =
